@@ -191,7 +191,9 @@ def cross_case(chk, i):
     for k in range(rng.randint(3, 8)):
         n = names[k] + ("_%d" % k if names[k] in ("plain", "ok_name", "x1") else "")
         if rng.random() < 0.25:
-            label = rng.choice(["real_%d" % k, "_lead_%d" % k, "with$d_%d" % k])
+            # labels unrelated to the name, and labels that are the name itself / the name with a prefix and/or a tail
+            # (what target mangling would produce, or nearly): the binding must reach exactly the label on every target
+            label = rng.choice(["real_%d" % k, "_lead_%d" % k, "with$d_%d" % k, "_" + n, n, "_%s_v2" % n, n + "_tail", "_%s@4" % n, "__" + n])
             if rng.random() < 0.5:
                 decls.append((n, "var", 'extern int %s __asm__("%s");' % (n, label), 'int %s __asm__("%s") = 1;' % (n, label), "C", 0))
             else:
